@@ -54,8 +54,20 @@ GenNext ==
 
 GenSpec == GenInit /\ [][GenNext]_genvars
 
-\* exhaustive machine with the export variables held constant
-MCSpec == GenInit /\ [][Next /\ UNCHANGED <<bookA, bookB, picked>>]_genvars
+\* exhaustive machine with the export variables held constant; one named wrapper per action
+\* (TLC reports coverage per name)
+Keep == UNCHANGED <<bookA, bookB, picked>>
+DoAliceSendSaltHalf == AliceSendSaltHalf /\ Keep
+DoBobSendSaltAndHashes == BobSendSaltAndHashes /\ Keep
+DoAliceSendHashes == AliceSendHashes /\ Keep
+DoBobSendNodes == (\E book \in Books : BobSendNodes(book)) /\ Keep
+DoAliceReceiveNodes == AliceReceiveNodes /\ Keep
+DoAliceSendNodes == (\E book \in Books : AliceSendNodes(book)) /\ Keep
+DoBobReceiveNodes == BobReceiveNodes /\ Keep
+MCNext ==
+    \/ DoAliceSendSaltHalf \/ DoBobSendSaltAndHashes \/ DoAliceSendHashes \/ DoBobSendNodes
+    \/ DoAliceReceiveNodes \/ DoAliceSendNodes \/ DoBobReceiveNodes
+MCSpec == GenInit /\ [][MCNext]_genvars
 
 BookJson(book) ==
     {[n |-> n, topics |-> book[n].topics, tr |-> book[n].tr, stale |-> book[n].stale] :
